@@ -17,6 +17,7 @@
 -/
 import DD.Capacity
 import DD.Capacity2
+import DD.Capacity3
 import DD.Driver
 open Std
 
@@ -106,7 +107,16 @@ def stepLineCap (s : CapSession) (line : String) : CapSession × String :=
         | "apply", aop :: u :: rest =>
           -- operators that do not quantify go through ONE `self.ite`; the quantifier aliases
           -- call `quantify`, which has no capacity-aware model: refused here, never compared
-          if isQuantOp aop then (s, "err NO-CAPACITY-MODEL") else
+          if isQuantOp aop then
+            (match parseInt? u, rest.mapM parseInt? with
+            | some u, some [v] =>
+              if old then runCapOn s id sched (DRes.int <$> applyCapQO cap aop u (some v) none) (DRes.int <$> applyCapQO cap aop u (some v) none)
+              else runCapOn s id sched (DRes.int <$> applyCapQL cap aop u (some v) none) (DRes.int <$> applyCapQ cap aop u (some v) none)
+            | some u, some [] =>
+              runCapOn s id sched (DRes.int <$> applyCapQL cap aop u none none) (DRes.int <$> applyCapQ cap aop u none none)
+            | some u, some [v, w] =>
+              runCapOn s id sched (DRes.int <$> applyCapQL cap aop u (some v) (some w)) (DRes.int <$> applyCapQ cap aop u (some v) (some w))
+            | _, _ => (s, "err OtherError")) else
           if old then
             (match parseInt? u, rest.mapM parseInt? with
             | some u, some [] => runCapOn s id sched (DRes.int <$> applyG (iteCapO cap) quantify aop u none none) (DRes.int <$> applyG (iteCapO cap) quantify aop u none none)
@@ -118,6 +128,12 @@ def stepLineCap (s : CapSession) (line : String) : CapSession × String :=
           | some u, some [v] => runCapOn s id sched (DRes.int <$> applyCapL cap aop u (some v) none) (DRes.int <$> applyCap cap aop u (some v) none)
           | some u, some [v, w] => runCapOn s id sched (DRes.int <$> applyCapL cap aop u (some v) (some w)) (DRes.int <$> applyCap cap aop u (some v) (some w))
           | _, _ => (s, "err OtherError")
+        | "quantify", [u, q, fa] =>
+          match parseInt? u, parseKeys q, parseBool? fa with
+          | some u, some q, some fa =>
+            if old then runCapOn s id sched (DRes.int <$> quantifyCapO cap u q fa) (DRes.int <$> quantifyCapO cap u q fa)
+            else runCapOn s id sched (DRes.int <$> quantifyCapL cap u q fa) (DRes.int <$> quantifyCap cap u q fa)
+          | _, _, _ => (s, "err OtherError")
         | "swap", [a, b] =>
           -- `BDD.swap` goes through `find_or_add`: finding F22 (a refusal there leaves the manager
           -- half-swapped); the model with capacity says what exactly is left
